@@ -395,6 +395,15 @@ def run_fingering(case):
         return
     if form == "notes":
         arg = [mknote(p) for p in pitches]
+    elif form == "after_refused":
+        # an earlier search that was abandoned half-way (its second note is not a note) must leave nothing behind
+        for bad in ("H-2", None):
+            try:
+                r = tv.obj.find_fingering([mkstr(pitches[0]), bad])
+                S.count("fingering_bad_note_list_answered")
+            except Exception:                                   # noqa -- what a malformed list does is not the subject
+                S.count("fingering_bad_note_list_raised")
+        arg = [mknote(p) for p in pitches]
     elif form == "strs":
         arg = [mkstr(p) for p in pitches]
     else:
@@ -450,6 +459,9 @@ def gen_fingering(shard):
         for md in (None, 3, 1):
             yield [key, dk, [p], md, "notes"]
     yield [key, dk, [singles[5]], None, "strs"]
+    for p in singles[2::5]:
+        yield [key, dk, [p], None, "after_refused"]
+        yield [key, dk, [p, p + 4], None, "after_refused"]
     win = _window(tv, 0, 12)
     dists = [3, 4, 5] if tier == "quick" else [1, 3, 4, 5, None]
     for a in win:
